@@ -74,4 +74,32 @@ theorem header_roundtrip (S F L : Bytes) (hS : S ≠ []) (hF : F ≠ []) (hL : L
     have e : S.length + F.length = (S ++ F).length := by simp
     rw [e, List.drop_left]
 
+/-- the reader also accepts version 1.1 headers: the feature variations offset (which it only
+validates: 0, or inside the table behind the header) does not change where the three lists are read -/
+theorem header_v11 (so fo lo hi lw : Nat) (hso : so < 65536) (hfo : fo < 65536) (hlo : lo < 65536)
+    (hhi : hi < 65536) (hlw : lw < 65536) (rest : Bytes)
+    (h1 : 14 ≤ so ∧ so < 14 + rest.length) (h2 : 14 ≤ fo ∧ fo < 14 + rest.length)
+    (h3 : 14 ≤ lo ∧ lo < 14 + rest.length)
+    (hfv : hi * 65536 + lw = 0 ∨ (14 ≤ hi * 65536 + lw ∧ hi * 65536 + lw < 14 + rest.length)) :
+    readHeader (wordsToBytes [1, 1, so, fo, lo, hi, lw] ++ rest) = .ok (some (so, fo, lo)) := by
+  have hlt : ∀ w ∈ [1, 1, so, fo, lo, hi, lw], w < 65536 := by
+    intro w hw
+    simp only [List.mem_cons, List.not_mem_nil, or_false] at hw
+    rcases hw with rfl | rfl | rfl | rfl | rfl | rfl | rfl <;> omega
+  have hlen : (wordsToBytes [1, 1, so, fo, lo, hi, lw] ++ rest).length = 14 + rest.length := by
+    simp [length_wordsToBytes]
+  unfold readHeader
+  rw [hlen, if_neg (by omega), bytesToWords_append _ hlt]
+  simp only [List.cons_append, List.nil_append, List.length_cons, List.getD_cons_zero, List.getD_cons_succ]
+  have c1 : ((1 != 1) || decide (1 > 1)) = false := by decide
+  rw [c1]
+  simp only [Bool.false_eq_true, if_false, beq_self_eq_true, Bool.true_and, if_true]
+  rw [if_neg (by simp), if_neg (by simp; omega)]
+  rw [if_neg (by
+    simp only [List.any_cons, List.any_nil, Bool.or_false, Bool.or_eq_true, decide_eq_true_eq]
+    omega)]
+  rw [if_neg (by
+    simp only [Bool.or_eq_true, Bool.and_eq_true, bne_iff_ne, ne_eq, decide_eq_true_eq]
+    omega)]
+
 end SfntV.Otl.Gtab
